@@ -65,8 +65,8 @@ def site (p : Pol) (t : Tag) : M Unit :=
   | .warn => M.finding t
   | .fail => M.fail t
 
-/-- the variant without an ignore arm used where the Go code is only entered for warn/fail anyway -/
-abbrev siteWF := site
+/-- a policy site behind a condition -/
+def condSite (c : Bool) (p : Pol) (t : Tag) : M Unit := if c then site p t else pure ()
 
 /-! ### headerfielddef.go -/
 
@@ -91,15 +91,19 @@ def RT_Revisit := constRT "Revisit"
 def RT_Conversion := constRT "Conversion"
 def RT_Continuation := constRT "Continuation"
 
+/-- the value of the first WARC-Type field (case-insensitive name), or empty -/
+def typeFieldOf (h : Fields) : Bytes :=
+  match h.find? (fun nv => lowerKey nv.1 == bs "warc-type") with
+  | some nv => nv.2
+  | none => []
+
+def rtOf (h : Fields) : Nat := recTypeOfName (lowerKey (typeFieldOf h))
+
 def resolveRecordType (o : Opts) : M Nat := do
   let h ← M.hdr
-  let typeField := match h.find? (fun nv => lowerKey nv.1 == bs "warc-type") with
-    | some nv => nv.2
-    | none => []
-  if typeField.isEmpty then site o.spec .hdrNoType
-  let rt := recTypeOfName (lowerKey typeField)
-  if rt == 0 then site o.unk .hdrUnknownType
-  pure rt
+  condSite (typeFieldOf h).isEmpty o.spec .hdrNoType
+  condSite (rtOf h == 0) o.unk .hdrUnknownType
+  pure (rtOf h)
 
 def defOf (name : Bytes) : FieldDef :=
   match lookupDef (lowerKey name) with
@@ -130,8 +134,8 @@ def valueOk (Ω : Oracles) (check : String) (v : Bytes) : Bool :=
 /-- validationFunc of a field incl. checkLegal: true = the field is reported (illegal for the type, or ill-formed) -/
 def fieldBad (Ω : Oracles) (verId rt : Nat) (d : FieldDef) (v : Bytes) : Bool :=
   if !(validatorOf d).1 then false
-  else if rt == 0 then false
   else if verId &&& d.specMask == 0 then false
+  else if rt == 0 then !valueOk Ω (validatorOf d).2 v
   else if rt &&& d.recMask == 0 then true
   else !valueOk Ω (validatorOf d).2 v
 
@@ -154,28 +158,34 @@ def wrap64 (i : Int) : Int := if i > 9223372036854775807 then i - 18446744073709
 def validateFieldsLoop (o : Opts) (Ω : Oracles) (verId rt : Nat) : Fields → M Unit
   | [] => pure ()
   | (n, v) :: rest => do
-    if fieldBad Ω verId rt (defOf n) v then site o.spec .hdrField
+    condSite (fieldBad Ω verId rt (defOf n) v) o.spec .hdrField
     let h ← M.hdr
-    if !(defOf n).repeatable && (h.getAll n).length > 1 then site o.spec .hdrDuplicate
+    condSite (!(defOf n).repeatable && decide ((h.getAll n).length > 1)) o.spec .hdrDuplicate
     validateFieldsLoop o Ω verId rt rest
 
 def requiredLoop (o : Opts) : List String → M Unit
   | [] => pure ()
   | f :: rest => do
     let h ← M.hdr
-    if !h.has (bs f) then site o.spec .hdrMissing
+    condSite (!h.has (bs f)) o.spec .hdrMissing
     requiredLoop o rest
+
+def ctRule (h : Fields) (rt : Nat) : Bool := rt != RT_Continuation && decide (contentLengthOf h > 0) && !h.has (bs "Content-Type")
+def concRule (h : Fields) (rt : Nat) : Bool :=
+  (RT_Warcinfo ||| RT_Conversion ||| RT_Continuation) &&& rt != 0 && h.has (bs "WARC-Concurrent-To")
+
+/-- the checks of validateHeader that only run when spec > ignore -/
+def validateSpec (o : Opts) (Ω : Oracles) (verId rt : Nat) : M Unit := do
+  let h ← M.hdr
+  validateFieldsLoop o Ω verId rt h
+  requiredLoop o Gen.requiredFields
+  let h ← M.hdr
+  condSite (ctRule h rt) o.spec .hdrMissingCT
+  condSite (concRule h rt) o.spec .hdrConcurrent
 
 def validateHeader (o : Opts) (Ω : Oracles) (verId : Nat) : M Nat := do
   let rt ← resolveRecordType o
-  if o.spec != .ignore then
-    let h ← M.hdr
-    validateFieldsLoop o Ω verId rt h
-    requiredLoop o Gen.requiredFields
-    let h ← M.hdr
-    if rt != RT_Continuation && contentLengthOf h > 0 && !h.has (bs "Content-Type") then site o.spec .hdrMissingCT
-    if (RT_Warcinfo ||| RT_Conversion ||| RT_Continuation) &&& rt != 0 && h.has (bs "WARC-Concurrent-To") then
-      site o.spec .hdrConcurrent
+  if o.spec != .ignore then validateSpec o Ω verId rt
   pure rt
 
 /-! ### blocks -/
